@@ -56,6 +56,7 @@ fn creep(a: &Args) -> i32 {
     let mut bad: Vec<String> = Vec::new();
     let mut i = 0u64;
     let (_, mut last_len) = np_now(&path);
+    let mut aimed = 0u64;
     while crossed < crossings && i < 3000 {
         crate::tick();
         i += 1;
@@ -91,8 +92,16 @@ fn creep(a: &Args) -> i32 {
         let d = (boundary + 1).saturating_sub(np);
         // every other big step needs more than one 8 MiB extension at once
         let jump = if a.n("jump", 1) != 0 && crossed % 2 == 1 { (8 * 1024 * 1024 * 7 / 5) / ps } else { 0 };
-        let pages: u64 = if d > 60 { d - 30 + jump } else { 1 + (i % 6) };
-        let len = (pages * ps).saturating_sub(200 + (i % 7) * 13) as usize;
+        // Far from the end of the file: a big step.  Close to it: ONE value whose leaf needs exactly the pages that are
+        // left plus one, so that this commit's high-water mark is the first page the file does not hold completely (when
+        // the page size does not divide the file length that page is backed in part, and the value's last page is full);
+        // after that small steps until the file has been extended.
+        let exact = d >= 2 && d <= 60 && aimed != boundary;
+        if exact {
+            aimed = boundary;
+        }
+        let pages: u64 = if d > 60 { d - 30 + jump } else if exact { d } else { 1 + (i % 6) };
+        let len = if exact { (pages * ps).saturating_sub(100) as usize } else { (pages * ps).saturating_sub(200 + (i % 7) * 13) as usize };
         let fill = b'a' + (i % 26) as u8;
         let key = format!("k{:06}", i).into_bytes();
         let r = std::panic::catch_unwind(std::panic::AssertUnwindSafe(|| -> Result<(), jammdb::Error> {
